@@ -34,6 +34,7 @@ def emit_nocopy(kind, ir, opts=None):
         inline_types=o.get("inline_types", True),
         emit_as_kwonlyargs=o.get("emit_as_kwonlyargs", False),
         indent_level=o.get("indent_level", 2),
+        **({"emit_separating_tab": bool(o["emit_separating_tab"])} if "emit_separating_tab" in o else {}),
     )
 
 
